@@ -205,7 +205,8 @@ func Concretize(e *Edge, n int) Concrete {
 		case "noarg":
 			line("BDAT")
 		case "badsize":
-			line("BDAT abc")
+			// not 1*DIGIT: must be refused, never framed with a guessed length
+			line("BDAT " + []string{"abc", "0x6", "+6", "-6", "6.0", "1_0", "4294967296", "0b11", "0o6"}[n%9])
 		case "3args":
 			if c.L {
 				k.Phases = append(k.Phases, []byte(fmt.Sprintf("BDAT %d LAST X\r\n%s", c.N, payload)))
